@@ -86,6 +86,7 @@ QuotLead == {x \in [op : {"polyq"}, bits : {2, 7, 12}, len : 1..17, lead : {"11"
 BigBits == {64, 150, 151, 245, 246, 280, 281, 310, 311, 320, 400, 500}
 BigLg == {10, 12, 13, 14} \cup (IF SizeCap > 1 THEN {15, 16} ELSE {})
 ConvBig == [op : {"conv_big"}, alg : {"ss_public", "ntt"}, bits : BigBits, lg : BigLg, pat : {"ptop", "prand", "sparse"}]
+           \cup [op : {"conv_big"}, alg : {"ss_public"}, bits : BigBits, lg : {10, 13}, pat : {"mtop"}]
 \* full-size period-2 operands through the public dispatcher at every second modulus size in the ten bits above
 \* each packing-class limit (a limit moved by a few bits overflows a slot only once 2 bits + log2 size exceeds it)
 EdgeBits == {152, 154, 156, 158, 160, 247, 249, 251, 253, 255, 282, 284, 286, 288, 290, 312, 314, 316, 318}
@@ -93,7 +94,9 @@ EdgeBits == {152, 154, 156, 158, 160, 247, 249, 251, 253, 255, 282, 284, 286, 28
 \* transform size is what pushes the required number of primes to j + 1)
 NttEdgeBits == {29 * j - 1 : j \in 3..17}
 ConvBigNtt == [op : {"conv_big"}, alg : {"ntt"}, bits : NttEdgeBits, lg : {10, 13}, pat : {"ptop"}]
-ConvBigEdge == [op : {"conv_big"}, alg : {"ss_public"}, bits : EdgeBits, lg : {10, 13} \cup (IF SizeCap > 1 THEN {15} ELSE {}), pat : {"ptop"}]
+\* "mtop": modulus 2^bits - small, operands whose Montgomery representatives are n-1, n-2, n-3 (the packed transform
+\* multiplies representatives, so only these fill a slot to its true maximum 2 bits + log2 size)
+ConvBigEdge == [op : {"conv_big"}, alg : {"ss_public"}, bits : EdgeBits, lg : {10, 13} \cup (IF SizeCap > 1 THEN {15} ELSE {}), pat : {"ptop", "mtop"}]
 
 Name(x) ==
   CASE x.op = "fint" -> [op |-> "fint", N |-> x.N, fop |-> FIntOps[x.fop], pa |-> FPats[x.pa], pb |-> FPats[x.pb]]
